@@ -41,6 +41,14 @@ CLAIMED["C20"] = dict(
          "elements are in range (precondition). Bounded parts are not counted as proved.",
 )
 
+CLAIMED["C19"] = dict(
+    text="Bounded only (labelled exploration, nothing counted as proved): toposort_all and toposort are run on every digraph with self-loops on <= 3 vertices "
+         "(<= 4 in the thorough tier) and on random digraphs up to 7 vertices and compared with permutation filtering (multiset equality, so repetitions are seen).",
+    note="No contract is discharged: the invariant relates in-degrees to the cardinality of the set of unprocessed predecessors, out of reach of the SMT encoding "
+         "(DESIGN.md C19). The check is a runtime stand-in with a stated bound.",
+    technique="bounded stand-in for a function outside the verifier's reach (runtime oracle comparison, stated bound)",
+)
+
 NOT_APPLICABLE = {
     "C14": "float layout geometry and a two-run (orientation) relation over 360 lines of dict-state code: no contract within reach decides it (DESIGN.md section 5)",
     "C09": "metamorphic / cross-process relations between runs; a functional contract speaks about one call (DESIGN.md section 5)",
